@@ -11,6 +11,8 @@ CONSTANTS
   EnvShift = 1
   SkipLastBond = FALSE
   DropInnerTag = TRUE
+  Targets <- TargetsQuick
+  CrossedBound = FALSE
   StoreByRef = FALSE
   Emit = FALSE
 INVARIANT EnvConsistent
